@@ -132,10 +132,9 @@ func (c *clientService) Terminate() error {
 	}
 	c.objectsMutex.RUnlock()
 	for _, id := range ids {
-		err := c.Remove(id)
-		if err != nil {
-			return err
-		}
+		// an object removed meanwhile by somebody else is not a
+		// reason to keep the others.
+		c.Remove(id)
 	}
 	return nil
 }
